@@ -63,6 +63,15 @@ class Contract:
         return env
 
 
+EXTRA_TERMS = []  # skolem constants created while expanding nested quantifiers (instantiation terms)
+
+
+def _intlike(v):
+    if isinstance(v, vals.SOpt):
+        return _intlike(v.v)
+    return isinstance(v, (int, SInt)) and not isinstance(v, bool) or (z3.is_expr(v) and v.sort() == z3.IntSort())
+
+
 class _Quantified:
     def truthy(self):
         raise Unsupported("quantified specification used as a plain truth value (nest quantifiers only as "
@@ -93,6 +102,20 @@ class QE(_Quantified):
 
     def inst(self, j, inner=None):
         r = self.fn(j)
+        if isinstance(r, (Conj, QF)):
+            # exists k. (A(k) and forall t. P(k, t)) as a goal: the inner universal is skolemised per
+            # candidate k with a fresh t (sound: see DESIGN.md, spec language)
+            parts = []
+            for prt in _parts(r):
+                if isinstance(prt, QF):
+                    t = z3.Int(fresh_name("jn"))
+                    EXTRA_TERMS.append(t)
+                    parts.append(zbool(prt.inst(t)))
+                elif isinstance(prt, _Quantified):
+                    raise Unsupported("unsupported quantifier nesting inside exists")
+                else:
+                    parts.append(zbool(vals.truthy_term(prt)))
+            r = zand(*parts)
         if isinstance(r, QE):
             if inner is None:
                 raise Unsupported("nested existential needs candidate terms")
@@ -329,11 +352,13 @@ def _imp_into(a, x, ev):
 def _exists(ev, node):
     snap = SpecEval(ev.ex, ev.st.fork(), ev.env, ev.old_st)
     lo, hi, fn = ev.e(node.args[0]), ev.e(node.args[1]), snap.e(node.args[2])
+    if not _intlike(lo) or not _intlike(hi):
+        return SBool(z3.Bool(fresh_name("unspec")))
 
     def body(j):
         r = fn(j)
-        if isinstance(r, QE):
-            return r  # nested existential: expanded by the caller over the candidate terms
+        if isinstance(r, (QE, QF, Conj)):
+            return r  # nested quantifiers: expanded by QE.inst
         return vals.truthy_term(r, snap.heap)
 
     return QE(lo, hi, body)
@@ -344,6 +369,8 @@ def _forall(ev, node):
     # the body is instantiated lazily: it must be evaluated against the state as of now
     snap = SpecEval(ev.ex, ev.st.fork(), ev.env, ev.old_st)
     lo, hi, fn = ev.e(node.args[0]), ev.e(node.args[1]), snap.e(node.args[2])
+    if not _intlike(lo) or not _intlike(hi):
+        return SBool(z3.Bool(fresh_name("unspec")))  # ill-typed bound in a (guarded) specification
 
     def body(j):
         r = fn(j)
@@ -697,7 +724,12 @@ def apply_contract(ex, contract, fv, args, kwargs, st, node):
     else:
         rt = contract.result_type or "None"
         alts = make_symbolic(ex, st, fresh_name(short + ".ret"), rt)
-        if len(alts) != 1:
+        if len(alts) == 2 and any(a[0] is None for a in alts) and not isinstance([a for a in alts if a[0] is not None][0][0], (SV, str)):
+            inner = [a for a in alts if a[0] is not None][0]
+            for a in inner[1]:
+                st.assume(a)
+            result = vals.SOpt(z3.Bool(fresh_name(short + ".ret.none")), inner[0])
+        elif len(alts) != 1:
             # dynamic result: one fresh reading value
             result = SV(z3.Const(fresh_name(short + ".ret"), V))
         else:
@@ -706,6 +738,9 @@ def apply_contract(ex, contract, fv, args, kwargs, st, node):
                 st.assume(a)
     env2 = dict(env)
     env2["result"] = result
+    rv = result.v if isinstance(result, vals.SOpt) else result
+    if isinstance(rv, SInt):
+        st.inst_terms.append(("term", rv.t))  # an integer result may be the witness of an existential goal
     ev = SpecEval(ex, st, env2, old_st)
     for label, src in contract.ensures.items():
         assume_spec(ex, st, ev.ev(src), f"{short}:{label}")
